@@ -14,6 +14,21 @@ CHECKS = {
  "C01": dict(cat="exploration", ref="DESIGN.md §6 C01",
    technique="deterministic simulation with fault injection: seeded search over configuration x tick schedule x per-packet fault sequence; oracle = input-delay reference model + serial replay, checked at every confirmed frame",
    text="Seeded search over C01's space (2-4 peers, 1-2 local players, delays, windows >= 1, sparse on/off, both predictors, loss/dup/delay/reorder/bursts, pauses, rate ratios, up to 5000 frames) on the real sessions under a virtual clock and simulated network. After every advance_frame call every frame at or below confirmed_frame() must have been last simulated with the true inputs (input-delay reference model) and its state must equal the serial replay; peers are compared pairwise at the end. Exploration is the right level: the property quantifies over unbounded schedules and histories, which can be sampled densely but not enumerated."),
+ "C02": dict(cat="exploration", ref="DESIGN.md §6 C02",
+   technique="deterministic simulation with fault injection: request-list automaton (frame, cell content, save serial, timeline) evaluated on every call of seeded runs incl. starvation, lockstep, SyncTest and spectator sessions",
+   text="Every request list returned in seeded runs over C01's space plus starvation schedules (a peer paused or black-holed for 1-50 s), lockstep sessions, SyncTest sessions and spectator sessions is executed by a harness game that checks each request against a small automaton: Save names the game's frame; Load names an earlier frame within the window whose cell holds the newest save of that frame and the state of the current timeline; Advance carries one input per player; the game ends at current_frame() having moved 0 or 1 frames (spectators: up to catchup_speed); frame 0 is saved before it is first simulated in rollback mode."),
+ "C03": dict(cat="exploration", ref="DESIGN.md §6 C03",
+   technique="deterministic simulation with fault injection: per-input status oracle (input-delay model + connection status accessor) on every AdvanceFrame of seeded runs; finality of sealed frames; monotone confirmed_frame()",
+   text="Every (value, status) of every AdvanceFrame (first simulations and re-simulations) in seeded runs over C01's space, both predictors, is checked: Confirmed = the real input and actually received; Predicted = predictor applied to the newest received real input; Disconnected = default input with the player disconnected earlier; local players always Confirmed; frames at or below confirmed_frame() are only ever re-simulated with identical values; confirmed_frame() never decreases."),
+ "C04": dict(cat="exploration", ref="DESIGN.md §6 C04",
+   technique="deterministic simulation with fault injection: speculation-bound and lockstep invariants under seeded starvation schedules (pauses / one-way and two-way black holes of 1-50 simulated seconds)",
+   text="Windows 0..=12 x delays x sparse saving, with one peer starved of remote input for up to 50 simulated seconds (timeouts raised so nobody is disconnected): no first simulation of a frame beyond confirmed_frame() + max_prediction, no load deeper than max_prediction, and in lockstep no Save/Load, only Confirmed/Disconnected inputs, a stalled call leaves current_frame() unchanged."),
+ "C05": dict(cat="fault_enumeration", ref="DESIGN.md §6 C05",
+   technique="deterministic simulation with fault injection: simulator-executed enumeration of every single fault (quick) and every pair of faults (thorough) on the first 60 packets of each link over 48 base configurations, plus seeded search over burst outages and kind-targeted loss; oracle = bounded liveness after the last fault",
+   text="Fault enumeration executed against the real code: every single drop/duplicate/delay on each of the first 60 packets of every directed link of 48 base configurations (2 peers, 2 peers + spectator, 3 peers; windows 0,1,2,8; delays 0,2; sparse on/off), in the thorough tier every pair for the two-peer bases and for the host<->spectator links, plus seeded burst outages and targeted loss shorter than the timeout. After the last fault every regularly ticked session must be Running and still advancing, without any Disconnected event and with C01's timeline check on. Bounded-exhaustive within the stated bounds, sampling beyond."),
+ "C13": dict(cat="exploration", ref="DESIGN.md §6 C13",
+   technique="degenerate deterministic simulation (one SyncTestSession, no network, no clock): seeded configurations and inputs, injected fault = a game step whose result differs between simulations of one frame; oracle = exact detection window and first affected frame",
+   text="Seeded SyncTest configurations (players 1-4, window 1-12, check distance, delay 0-6, 30-400 frames): valid ones run with a deterministic harness game and must never report a mismatch, must hand out only Confirmed inputs equal to the delayed submissions and must obey the request-list automaton; half of them get a nondeterministic step injected at a seeded frame and must report MismatchedChecksum within check_distance+2 frames naming the first affected frame and not before the frame was simulated twice; invalid configurations (check distance >= window, sparse saving) must be rejected with InvalidRequest. The simulator degenerates here (no schedule, no network) and DESIGN.md says so."),
 }
 NOT_YET = "not claimed at this commit: the check for this property is still under construction (see DESIGN.md §6 for the planned check)"
 NA = {
